@@ -20,7 +20,44 @@ func init() {
 
 // hashedLiteral finds, in fn, the struct literal that is CBOR-encoded into a
 // crypto.Hash (the Sig_structure / MAC_structure).
-func hashedLiteral(p *Prog, fn *ssa.Function) (*ssa.Alloc, ssa.CallInstruction) {
+// c13Region: root plus the unexported functions of its own package that it
+// reaches through static calls (two levels): routine refactorings move parts of
+// Sign / Verify into such helpers.
+func c13Region(p *Prog, root *ssa.Function) []*ssa.Function {
+	out := []*ssa.Function{root}
+	seen := map[*ssa.Function]bool{root: true}
+	frontier := []*ssa.Function{root}
+	for depth := 0; depth < 2; depth++ {
+		var next []*ssa.Function
+		for _, fn := range frontier {
+			for _, ed := range p.CallGraph().out[fn] {
+				g := ed.Callee
+				if ed.Kind != "static" || seen[g] || funcPkgPath(g) != funcPkgPath(root) {
+					continue
+				}
+				if n := g.Name(); n == "" || (n[0] >= 'A' && n[0] <= 'Z') {
+					continue // exported API is analysed under its own name
+				}
+				seen[g] = true
+				out = append(out, g)
+				next = append(next, g)
+			}
+		}
+		frontier = next
+	}
+	return out
+}
+
+func hashedLiteral(p *Prog, root *ssa.Function) (*ssa.Alloc, ssa.CallInstruction) {
+	for _, fn := range c13Region(p, root) {
+		if al, call := hashedLiteralIn(p, fn); al != nil {
+			return al, call
+		}
+	}
+	return nil, nil
+}
+
+func hashedLiteralIn(p *Prog, fn *ssa.Function) (*ssa.Alloc, ssa.CallInstruction) {
 	m := p.matcher(fn)
 	for _, b := range fn.Blocks {
 		for _, in := range b.Instrs {
@@ -89,7 +126,7 @@ func checkC13(c *Ctx, p *Prog, r *Result) {
 		r.fail("C13.sig-structure: hashed structure literal not found in Sign (%v) / Verify (%v)", sl != nil, vl != nil)
 	} else {
 		sf, vf := litFields(sl), litFields(vl)
-		ms, mv := p.matcher(sign), p.matcher(verify)
+		ms, mv := p.matcher(sl.Parent()), p.matcher(vl.Parent())
 		sameType := typeShort(sl.Type()) == typeShort(vl.Type())
 		nFields := sl.Type().Underlying().(*types.Pointer).Elem().Underlying().(*types.Struct).NumFields()
 		ok := sameType && len(sf) == nFields && len(vf) == nFields
@@ -100,7 +137,9 @@ func checkC13(c *Ctx, p *Prog, r *Result) {
 				cv = c13FieldClass(mv, v)
 			}
 			// the payload may come from the object or from the parameter on either side
-			norm := func(s string) string { return strings.ReplaceAll(strings.ReplaceAll(s, "object-payload+payload-param", "payload"), "object-payload", "payload") }
+			norm := func(s string) string {
+				return strings.ReplaceAll(strings.ReplaceAll(s, "object-payload+payload-param", "payload"), "object-payload", "payload")
+			}
 			if norm(cs) != norm(cv) || cs == "" {
 				ok = false
 			}
@@ -132,7 +171,7 @@ func checkC13(c *Ctx, p *Prog, r *Result) {
 				return false
 			}
 			lk, ok := ex.Tuple.(*ssa.Lookup)
-			return ok && lk.CommaOk && m.Prov(lk.X).Has("global:fdo/cose.sigAlgorithms") && m.Prov(lk.Index).Has("decoded:")
+			return ok && lk.CommaOk && m.Prov(lk.X).Has("global:fdo/cose.sigAlgorithms") && m.Prov(lk.Index).HasX("decoded:")
 		}},
 		AtomDef{Name: "payload-param-nil", Doc: "no detached payload was given to Verify", Edge: func(m *Matcher, pd Pred, holds bool) bool {
 			if pd.Kind != "nil" || !holds {
@@ -168,7 +207,7 @@ func checkC13(c *Ctx, p *Prog, r *Result) {
 				x, y = y, x
 			}
 			l := lenOf(m, x)
-			if l == nil || !m.Prov(l).Has("field:fdo/cose.Sign1.Signature") {
+			if l == nil || !m.Prov(l).HasX("field:fdo/cose.Sign1.Signature") {
 				return false
 			}
 			bo, ok := y.(*ssa.BinOp)
@@ -176,7 +215,14 @@ func checkC13(c *Ctx, p *Prog, r *Result) {
 		}},
 	}}
 	rs.Derive = append(rs.Derive, Derivation{"payload-bound", []Atom{"payload-param-nil"}}, Derivation{"payload-bound", []Atom{"payload-overridden"}})
-	fs := NewFlow(p, rs, []*ssa.Function{sign}, func(g *ssa.Function) bool { return true })
+	inRegion := func(root *ssa.Function) func(g *ssa.Function) bool {
+		reg := map[*ssa.Function]bool{}
+		for _, fn := range c13Region(p, root) {
+			reg[fn] = true
+		}
+		return func(g *ssa.Function) bool { return !reg[g] }
+	}
+	fs := NewFlow(p, rs, []*ssa.Function{sign}, inRegion(sign))
 	r.useFlow(fs)
 	r.rule("C13.alg-bound", "Sign: the protected bucket is serialised only after the algorithm id (the result of SignatureAlgorithmFor, whose HashFunc is used) was stored under AlgLabel; Verify: the hash is taken from the id parsed from Protected, after it was found present, registered and available")
 	r.floor("C13.alg-bound", 3)
@@ -189,17 +235,21 @@ func checkC13(c *Ctx, p *Prog, r *Result) {
 			}
 		}
 	}
-	for _, call := range fs.CallSites(func(cal Callee, _ ssa.CallInstruction) bool { return cal.Name == "fdo/cose.SignatureAlgorithm.HashFunc" }) {
+	for _, call := range fs.CallSites(func(cal Callee, _ ssa.CallInstruction) bool {
+		return cal.Name == "fdo/cose.SignatureAlgorithm.HashFunc"
+	}) {
 		m := fs.matcherFor(sign)
 		r.table(p, "C13.alg-bound", "hash of Sign "+siteKey(p, call), p.instrPos(call), m.Prov(allArgs(call)[0]).Has("call:fdo/cose.SignatureAlgorithmFor"), "HashFunc receiver is the SignatureAlgorithmFor result")
 	}
-	fv := NewFlow(p, rs, []*ssa.Function{verify}, func(g *ssa.Function) bool { return true })
+	fv := NewFlow(p, rs, []*ssa.Function{verify}, inRegion(verify))
 	r.useFlow(fv)
 	dumpFlow(fv)
-	hf := fv.CallSites(func(cal Callee, _ ssa.CallInstruction) bool { return cal.Name == "fdo/cose.SignatureAlgorithm.HashFunc" })
+	hf := fv.CallSites(func(cal Callee, _ ssa.CallInstruction) bool {
+		return cal.Name == "fdo/cose.SignatureAlgorithm.HashFunc"
+	})
 	r.requireAtSites(fv, "C13.alg-bound", hf, []Atom{"alg-parsed", "alg-present", "alg-registered"})
 	for _, call := range hf {
-		r.table(p, "C13.alg-bound", "hash of Verify "+siteKey(p, call), p.instrPos(call), decoded(fv.matcherFor(verify), allArgs(call)[0]), "HashFunc receiver is the id parsed from the protected header")
+		r.table(p, "C13.alg-bound", "hash of Verify "+siteKey(p, call), p.instrPos(call), decodedX(fv.matcherFor(call.Parent()), allArgs(call)[0]), "HashFunc receiver is the id parsed from the protected header")
 	}
 	r.rule("C13.detached-payload-binds", "Verify hashes the structure only on paths where no detached payload was given or the given payload replaced the object's own (a verifier-supplied payload is never ignored)")
 	r.floor("C13.detached-payload-binds", 1)
@@ -213,23 +263,25 @@ func checkC13(c *Ctx, p *Prog, r *Result) {
 	// (6) signature slicing guarded
 	r.rule("C13.sig-slicing-guarded", "every slice of the Signature field in Verify happens after len(Signature) == 2n")
 	r.floor("C13.sig-slicing-guarded", 2)
-	mv := fv.matcherFor(verify)
 	k := 0
-	for _, b := range verify.Blocks {
-		for _, in := range b.Instrs {
-			sl, ok := in.(*ssa.Slice)
-			if !ok || !mv.Prov(sl.X).Has("field:fdo/cose.Sign1.Signature") || (sl.Low == nil && sl.High == nil) {
-				continue
+	for _, vfn := range fv.Order {
+		mv := fv.matcherFor(vfn)
+		for _, b := range vfn.Blocks {
+			for _, in := range b.Instrs {
+				sl, ok := in.(*ssa.Slice)
+				if !ok || !mv.Prov(sl.X).HasX("field:fdo/cose.Sign1.Signature") || (sl.Low == nil && sl.High == nil) {
+					continue
+				}
+				k++
+				st := fv.StateAt(sl)
+				o := Obl{Rule: "C13.sig-slicing-guarded", Construct: fmt.Sprintf("C13.sig-slicing-guarded | slice #%d of Signature in fdo/cose.Sign1.Verify", k), Pos: p.instrPos(in), Config: p.Config.Name,
+					Required: []string{"siglen-eq-2n"}, Found: st.list(), OK: st.Has("siglen-eq-2n")}
+				if !o.OK {
+					o.Missing = []string{"siglen-eq-2n"}
+					o.Detail = r.explain(fv, vfn, b, o.Missing)
+				}
+				r.add(o)
 			}
-			k++
-			st := fv.StateAt(sl)
-			o := Obl{Rule: "C13.sig-slicing-guarded", Construct: fmt.Sprintf("C13.sig-slicing-guarded | slice #%d of Signature in fdo/cose.Sign1.Verify", k), Pos: p.instrPos(in), Config: p.Config.Name,
-				Required: []string{"siglen-eq-2n"}, Found: st.list(), OK: st.Has("siglen-eq-2n")}
-			if !o.OK {
-				o.Missing = []string{"siglen-eq-2n"}
-				o.Detail = r.explain(fv, verify, b, o.Missing)
-			}
-			r.add(o)
 		}
 	}
 
